@@ -66,13 +66,15 @@ def main():
     rc, o = sh("git -C /repo apply %s" % patch)
     try:
         for c in checks:
-            rc, o = sh("./check %s --tier %s" % (c, tier), cwd=VERIF)
+            # evidence, replays and work files of runs against a seeded change go to a scratch directory
+            rc, o = sh("VERIF_SCRATCH=/tmp/seeded-scratch ./check %s --tier %s" % (c, tier), cwd=VERIF)
             viol = [l for l in o.splitlines() if l.startswith("VIOLATION")]
             meta["ran"].append({"cmd": "./check %s --tier %s" % (c, tier), "exit": rc, "violation_lines": len(viol),
                                 "first": (o.splitlines()[-1][:600] if o.strip() else "")})
             print("%s-%s: check %s -> exit %d (%d VIOLATION lines)" % (pid, label, c, rc, len(viol)))
     finally:
         sh("git -C /repo checkout -- .")
+        shutil.rmtree("/tmp/seeded-scratch", ignore_errors=True)
     meta["detected_by"] = [r["cmd"] for r in meta["ran"] if r["exit"] == 1]
     dest = os.path.join(VERIF, "seeded", "%s-%s" % (pid, label))
     os.makedirs(dest, exist_ok=True)
